@@ -423,7 +423,31 @@ def check_registries(case, snap, strict):
     return None
 
 
+_ELSEWHERE = []
+
+
+def use_elsewhere(sc, O):
+    """the map of the scenario is cut out into a second scenario (LaneletNetwork.create_from_lanelet_network), which gets
+    copies of the obstacles and assigns them: nothing of that may show in the first scenario"""
+    import copy
+    try:
+        net2 = LaneletNetwork.create_from_lanelet_network(sc.lanelet_network)
+        sc2 = new_scenario()
+        sc2.add_objects(net2)
+        for i in sorted(O):
+            ob = copy.deepcopy(O[i])
+            ob.obstacle_id = 5000 + int(i)
+            sc2.add_objects(ob)
+        sc2.assign_obstacles_to_lanelets()
+        _ELSEWHERE.append(sc2)
+        del _ELSEWHERE[:-3]
+    except Exception:  # noqa - whatever the second scenario does to itself is not judged here
+        pass
+
+
 def apply_op(sc, O, op):
+    if op.get("elsewhere"):
+        use_elsewhere(sc, O)
     try:
         if op["op"] == "add":
             sc.add_objects(O[op["o"]])
@@ -704,6 +728,12 @@ def make_chooser(rng, case):
     unassigned_file = bool(case.get("read")) and not case["read"].get("la", True)
 
     def chooser(snap, step):
+        op = choose(snap, step)
+        if op is not None and rng.random() < 0.12:
+            op["elsewhere"] = True
+        return op
+
+    def choose(snap, step):
         if step >= n_steps:
             return None
         inside = sorted(set(snap["statics"]) | set(snap["dynamics"]))
